@@ -173,9 +173,14 @@ def run(cx):
     lin = [st for st in body if isinstance(st, ast.Assign) and isinstance(st.targets[0], ast.Name)
            and st.targets[0].id == res_var and st not in exp]
     oke = len(exp) == 1 and len(lin) == 1 and exp[0].lineno > lin[0].lineno and a is exp[0]
+    grid = lin[0].value if lin else None
+    if not exp and len(lin) == 1 and isinstance(a.value, ast.BinOp) and isinstance(a.value.op, ast.Pow) \
+            and isinstance(a.value.left, ast.Constant) and a.value.left.value == 10 and a is lin[0]:
+        # one statement (the canonical spelling of grid-then-power under one name): edges = 10**grid
+        oke, grid = True, a.value.right
     fn.ob('FORMULA', 'log edges are 10** of a uniform grid in log space', oke, exp[0] if exp else a, key='log-exp')
     if lin:
-        spec_check(fn, 'FORMULA', 'log-space grid: n+1 points from lo-d/2 to hi+d/2 with d=(hi-lo)/(resolution-1)', lin[0].value,
+        spec_check(fn, 'FORMULA', 'log-space grid: n+1 points from lo-d/2 to hi+d/2 with d=(hi-lo)/(resolution-1)', grid,
                    'np.linspace(R[0] - ((R[1] - R[0]) / (S - 1))/2, R[1] + ((R[1] - R[0]) / (S - 1))/2, N + 1)',
                    roles={'R': ('var', rng), 'S': ('var', res), 'N': ('var', nb)}, opaque=(rng, res, nb), at=lin[0], node=lin[0])
     # logicle
